@@ -458,8 +458,22 @@ fn via_setters<'h>(input: &Input<'h>, alt: bool) -> Input<'h> {
     i.set_span(0..len);
     // ... and then used for something else first: an `Input` object may be
     // re-configured any number of times, and only the last setting counts
-    i.set_end(len / 2);
-    i.set_start(1.min(len / 2));
+    // - to the LEFT of the wanted span, or, where the wanted span is then set
+    // by one call (`set_span`/`set_range`; the one-sided setters are checked
+    // against the other side's current value, so they need the left variant),
+    // to the RIGHT of it with a gap: an object that has served a search
+    // further along the haystack and is moved back
+    let one_call = !alt || sp.start % 2 == 0;
+    if one_call && sp.end % 2 == 1 {
+        if sp.end % 4 == 1 {
+            i.set_start(len);
+        } else {
+            i.set_span((len - len / 3)..len);
+        }
+    } else {
+        i.set_end(len / 2);
+        i.set_start(1.min(len / 2));
+    }
     i.set_anchored(if input.get_anchored().is_anchored() { Anchored::No } else { Anchored::Yes });
     i.set_earliest(!input.get_earliest());
     // the setters are independent of each other, so any order must do
